@@ -373,3 +373,30 @@ def shard(mon, tier, rng, shard_no, nshards):
             mon.sample({"cone": label, "W": W, "X": X[:6]})
     for _ in range(3 if tier == "quick" else 25):
         check_hv(mon, rng)
+
+
+def replay(mon, rec):
+    from vopy.utils import get_smallmij, is_covered
+
+    c = rec["case"]
+    W = np.array(c["W"], float)
+    order = gen.make_order("W", W=W)
+    a_or, _, _ = G.cone_alpha(W)
+    if "vi" in c:
+        vi, vj = np.array(c["vi"], float), np.array(c["vj"], float)
+        got = float(get_smallmij(vi, vj, W, order.ordering_cone.alpha))
+        want = G.small_m(W, a_or, vi, vj)
+        print(f"get_smallmij={got!r}; definition {want!r}; alpha oracle {a_or}")
+        if "eps" in c:
+            print("is_covered:", is_covered(vi, vj, c["eps"], W), " least cone-vector norm:", G.eps_cover_distance(W, vi, vj)[0])
+        if abs(got - want) > 1e-6 * (1 + want):
+            mon.violation(rec["mechanism"], "reproduced", c)
+    elif "X" in c:
+        X = np.array(c["X"], float)
+        check_gaps(mon, np.random.default_rng(0), "replay", order, X)
+        if "pred" in c and "true" in c:
+            from vopy.utils.evaluate import calculate_epsilonF1_score
+
+            print("F1:", calculate_epsilonF1_score(SimpleNamespace(out_data=X), order, np.array(c["true"]), np.array(c["pred"]), c["eps"]))
+    else:
+        print("recorded case:", c)
